@@ -7,7 +7,7 @@ from common import run_model  # noqa: F401
 
 ID = "C06"
 LEVEL = "other"
-GEN = ["TmplGen", "UtilGen", "RxGen", "UnicodeGen", "InlineGen", "BlockGen", "NormalizeGen"]
+GEN = ["TmplGen", "UtilGen", "RxGen", "UnicodeGen", "InlineGen", "BlockGen", "NormalizeGen", "MdRenderGen"]
 COQ = ["Props/C06.vo"]
 EXPLANATION = (
     "PARTIAL proof + oracle. Proved (coq/Props/C06.v) for every HTML render template regenerated from the source, every "
@@ -21,8 +21,8 @@ EXPLANATION = (
     "<name attrs>body</name> with body in the grammar, void elements, attribute values free of the three characters - in "
     "which p, h1-h6, pre, a, em, strong, code - and del, mark, ins, sup, sub of the modelled inline plugins - contain phrasing "
     "elements only (C06_whole_document_is_well_nested; core, and core plus strikethrough, mark, insert, superscript, subscript, "
-    "url), and every string of that grammar returns the context reader to character data; and the output contains the image of every text, code-span, inline-HTML, code-block and HTML-block leaf of the AST - escape(raw), for HTML blocks escape(raw.strip()) - one after the other in document order (C06_whole_document_shows_every_leaf_in_order, from a reflective analysis of the regenerated templates that is sound for every shape with escape on; text under an image goes into the alt attribute and is the oracle's). NOT proved: the other plugin and "
-    "directive tokens at tree level, the Markdown and RST renderers, and two-step = one-step; these clauses are decided by the oracle: strict HTML "
+    "url), and every string of that grammar returns the context reader to character data; and the output contains the image of every text, code-span, inline-HTML, code-block and HTML-block leaf of the AST - escape(raw), for HTML blocks escape(raw.strip()) - one after the other in document order (C06_whole_document_shows_every_leaf_in_order, from a reflective analysis of the regenerated templates that is sound for every shape with escape on; text under an image goes into the alt attribute and is the oracle's). MARKDOWN RENDERER: on the model of MarkdownRenderer and the shared list renderer over the core AST (coq/Model/MdDoc.v; skeletons with constants, regenerated patterns, correspondence run) the letters and digits of every text, code and HTML leaf, in document order, are a subsequence of those of the output, for every document (C06_markdown_output_keeps_every_leaf). NOT proved: the other plugin and "
+    "directive tokens at tree level, contiguity of the leaves in the Markdown output, the RST renderer, and two-step = one-step; these clauses are decided by the oracle: strict HTML "
     "nesting check, ordered search of every escaped leaf, per-line search of leaves in Markdown/RST output, and comparison "
     "of rendering a renderer-less token list with direct conversion.")
 ASSUMPTIONS = ["the leaf/inline classification of token types is part of the statement (this file and coq/Props/C06.v)"]
@@ -196,13 +196,39 @@ def check_text_renderer(m, which, doc, fails):
                     need.append((kind, line.strip()))
     miss = find_in_order(out, need)
     if miss:
-        fails.append({"input": doc, "config": which, "kind": "text-renderer-leaf-missing", "detail": list(miss), "html": out[:1500]})
+        f = {"input": doc, "config": which, "kind": "text-renderer-leaf-missing", "detail": list(miss), "html": out[:1500]}
+        if which == "rst" and "<linebreak>" in "".join(raw for _k, raw in leaves(toks, which)) \
+                and not _missing_without_marker(md, ast_md, doc, which):
+            f["class"] = "rst-linebreak-marker-in-band"
+        fails.append(f)
     return True
+
+
+def _missing_without_marker(md, ast_md, doc, which):
+    """the same document with the renderer's in-band marker word spelt differently: does a leaf still go missing?"""
+    doc2 = doc.replace("linebreak>", "lineBreak>")
+    fails = []
+    try:
+        out, toks = md(doc2), ast_md(doc2)
+    except Exception:
+        return True
+    need = []
+    for kind, raw in leaves(toks, which):
+        if kind == "text":
+            need += [(kind, p.strip()) for p in raw.replace("|", "\\|").splitlines() if p.strip()]
+        elif kind in ("codespan", "block_code"):
+            need += [(kind, p.strip()) for p in raw.splitlines() if p.strip()]
+    return find_in_order(out, need) is not None
 
 
 def correspondence(ctx):
     import corr_html
-    return corr_html.run(ctx, ctx.n(1500, 30000))
+    import corr_md
+    a = corr_html.run(ctx, ctx.n(1500, 30000))
+    b = corr_md.run(ctx, ctx.n(1200, 25000))
+    return {"evaluations": a["evaluations"] + b["evaluations"], "disagreements": (a["disagreements"] + b["disagreements"])[:20],
+            "parts": {"HTML renderer model": a["evaluations"], "Markdown renderer model": b["evaluations"]},
+            "samples": a.get("samples", []) + b.get("samples", [])}
 
 
 def oracle(ctx, extra):
@@ -233,17 +259,36 @@ def oracle(ctx, extra):
             seen.add(doc)
         if i % 4 == 0:
             d2 = gen_docs.doc(r, plugins=(), directives=False)
+            if r.random() < 0.1:
+                # words that collide with what the text renderers write themselves
+                w = r.choice(["\\<linebreak>", "\\|", "``", "\\*x\\*", "..", "::", "|img-0|", "> q", "\\> q"])
+                d2 = d2.replace(" ", " " + w + " ", 1)
             check_text_renderer(m, r.choice(["markdown", "rst"]), d2, fails)
             n += 1
-        if len(fails) >= 5:
+        if len([f for f in fails if not f.get("class")]) >= 5:
             break
-    return {"evaluations": n, "distinct_nontrivial": len(seen), "failures": fails,
+    known = [f for f in fails if f.get("class")]
+    fails = [f for f in fails if not f.get("class")] + known[:3]
+    return {"evaluations": n, "distinct_nontrivial": len(seen), "failures": fails, "known_finding_instances": len(known),
             "rule": "15% plugin showcases (definition + use), 45% generated documents, 15% interrupt/lazy fragments, 13% mutated, 12% noise; configurations core / all "
                     "plugins / all+speedup / footnotes+table+task_lists+fenced directives, escape on 75%, hard_wrap 25%; HTML "
                     "checked for strict nesting (escape on), every leaf of the renderer-less token list searched escaped and in "
                     "order, rendering that token list compared with direct conversion; every 4th iteration a core document "
                     "through the Markdown or RST renderer with per-line leaf search; distinct by text",
             "samples": [json.dumps(gen_docs.doc(ctx.rng('s'), plugins=gen_docs.ALL_PLUGINS))[:300]]}
+
+
+def check_known(ctx, k):
+    fails = []
+    check_text_renderer(ctx.mistune, "rst", k["input"], fails)
+    return bool(fails)
+
+
+def classify(f, known):
+    for k in known:
+        if k["id"] == f.get("class"):
+            return k["id"]
+    return None
 
 
 def replay(ctx, case):
